@@ -18,7 +18,7 @@ L2, for every value (no bound):
   `proto_property_partial` — which the Spec's comparison accepts when the pin's mode agrees with its
   depth; `proto_property_full` (no such hypothesis) and `proto_property_full_fails` (finding K13).
 * `query_roundtrip`, `query_property`.
-* `status_string_roundtrip_partial` / `_full` / `_full_fails` (finding K14), `status_named_roundtrip`, `mode_string_roundtrip`, `type_string_roundtrip`.
+* `status_string_roundtrip` (every filter of known statuses; in full since the repair of K14), `status_named_roundtrip`, `mode_string_roundtrip`, `type_string_roundtrip`.
 * `opts_equals_refl/symm/trans`, `pin_equals_refl/symm/trans` — Equals is an equivalence on values held
   behind distinct pointers; `opts_equals_sound`, `pin_equals_sound` — it never overlooks a difference; `equals_is_equivalence_full` (also for one pointer) and its refutation.
 * `tagged_field_identity` — the generic prediction for json/msgpack is the identity on a field whose
@@ -102,28 +102,42 @@ example : wfProto clusterDagPin = true ∧ protoRoundtrip clusterDagPin = .ok { 
 
 /-! ## L2: query string -/
 
-/-- `FromQuery(ToQuery(po))` is exactly `lossyQuery po` when every origin has a /p2p/ component -/
-theorem query_roundtrip (po : PinOptions) (h : po.origins.all (·.p2p) = true) : queryRoundtrip po = .ok (lossyQuery po) := by
+/-- `FromQuery(ToQuery(po))` is exactly `lossyQuery po` when every origin has a /p2p/ component and the user
+    allocations are peer IDs (or the list is empty, or holds only the empty peer ID: the value is then "") -/
+theorem query_roundtrip (po : PinOptions) (h : po.origins.all (·.p2p) = true)
+    (hu : (uaValueEmpty po.userAllocs || po.userAllocs.all validEntry) = true) : queryRoundtrip po = .ok (lossyQuery po) := by
   unfold queryRoundtrip fromQuery toQuery lossyQuery
   have hf : List.filter (fun kv : String × String => kv.1 != emptyStr) (List.filter (fun kv => kv.1 != emptyStr) po.metadata)
       = List.filter (fun kv => kv.1 != emptyStr) po.metadata := by simp [List.filter_filter]
+  have hmode : ¬(¬modeString po.mode = "" ∧ ¬modeString po.mode = "recursive" ∧ ¬modeString po.mode = "direct") := by
+    unfold modeString; split <;> simp
+  have hsz : ¬ ((po.shardSize : Int) < 0) := by omega
+  have hu' : (!uaValueEmpty po.userAllocs && !po.userAllocs.all validEntry) = false := by
+    cases h1 : uaValueEmpty po.userAllocs <;> cases h2 : po.userAllocs.all validEntry <;> simp_all
   by_cases hz : po.expireAt.isZero = true
   · have e : po.expireAt = Time.zero := by simpa [Time.isZero] using hz
     have z : Time.zero.isZero = true := by decide
-    simp [h, hf, e, z]
-  · simp [h, hz, hf]
+    simp [h, hf, e, z, hmode, hsz, hu', QInt.isBad, QInt.getD]
+  · simp [h, hz, hf, hmode, hsz, hu', QInt.isBad, QInt.getD]
 
 /-- preconditions of the query form: a recursive/direct mode, valid peers, origins with a peer ID -/
 def wfQuery (po : PinOptions) : Bool :=
-  (po.mode == 0 || po.mode == 1) && po.userAllocs.all validPeer && po.origins.all (·.p2p)
+  (po.mode == 0 || po.mode == 1) && po.userAllocs.all validEntry && po.origins.all (·.p2p)
 
 /-- pin options survive the query string, up to the entry for the empty metadata key -/
 theorem query_property (po : PinOptions) (h : wfQuery po = true) :
     ∃ q, queryRoundtrip po = .ok q ∧ optsSame .query po q = true := by
   simp only [wfQuery, Bool.and_eq_true, Bool.or_eq_true, beq_iff_eq] at h
   obtain ⟨⟨hm, hu⟩, ho⟩ := h
-  refine ⟨lossyQuery po, query_roundtrip po ho, ?_⟩
-  have hu' : po.userAllocs.filter validPeer = po.userAllocs := List.filter_eq_self.mpr (by simpa using hu)
+  refine ⟨lossyQuery po, query_roundtrip po ho (by simp [hu]), ?_⟩
+  have hu' : (if uaValueEmpty po.userAllocs = true then [] else po.userAllocs) = po.userAllocs := by
+    by_cases he : uaValueEmpty po.userAllocs = true
+    · rw [if_pos he]
+      simp only [uaValueEmpty, Bool.or_eq_true, beq_iff_eq] at he
+      rcases he with e | e
+      · exact e.symm
+      · rw [e] at hu; exact absurd hu (by decide)
+    · rw [if_neg he]
   have hmode : modeFromString (modeString po.mode) = po.mode := by
     rcases hm with e | e <;> rw [e] <;> decide
   simp [optsSame, lossyQuery, hu', hmode, metaNonEmpty, List.filter_filter]
@@ -132,22 +146,13 @@ example : wfQuery clusterDagPin.opts = true := by decide
 
 /-! ## L2: string forms -/
 
-/-- the full statement: every status and every filter of known statuses survives String → FromString
-    (and so its JSON form) -/
-def status_string_roundtrip_full : Prop := ∀ st, knownStatusFilter st = true → statusRoundtrip st = st
+/-- every status and every filter of known statuses survives String → FromString (and so its JSON form,
+    which goes through the same two functions). Holds in full since d6bd794 (was finding K14). -/
+theorem status_string_roundtrip (st : Nat) (h : knownStatusFilter st = true) : statusRoundtrip st = st :=
+  statusRoundtrip_known st h
 
-/-- … proved for filters that do not hold a proper part of a composite -/
-theorem status_string_roundtrip_partial (st : Nat) (h : knownStatusFilter st = true) (hp : noPartialComposite st = true) :
-    statusRoundtrip st = st := by
-  have := allBelow_spec _ _ status_table_partial st (known_lt st h)
-  simpa [h, hp] using this
-
-/-- … and refuted in general (finding K14): pinned|pin_error comes back as pinned|error -/
-theorem status_string_roundtrip_full_fails : ¬ status_string_roundtrip_full := by
-  intro h
-  have := h 20 (by decide)
-  revert this
-  decide
+/-- regression example for K14: pinned|pin_error used to come back as pinned|error = 30 -/
+example : knownStatusFilter 20 = true ∧ statusRoundtrip 20 = 20 ∧ statusStrings 20 = ["pin_error", "pinned"] := by decide
 
 /-- every named status (the twelve single ones, undefined, error, queued) survives -/
 theorem status_named_roundtrip : (statusNames.all fun kv => statusRoundtrip kv.1 == kv.1) = true := by decide
